@@ -28,8 +28,8 @@ pub fn def() -> CheckDef {
     CheckDef {
         id: "C10",
         level: "exploration",
-        runs_quick: 120_000,
-        runs_thorough: 2_500_000,
+        runs_quick: 800_000,
+        runs_thorough: 25_000_000,
         rule: "seeded histories of try_seek::<T> / apply_keystream (6 forms) / try_current_pos::<T> / clone on the seven seekable byte-stream aliases (six CTR flavours, BeltCtr), T in {u32,u64,u128,usize,i32>=0}; positions small, inside blocks, backward, forward, around 2^32 bytes, around 2^36, near (not beyond) the end of the keystream; position arithmetic against an integer tracked by the simulator; keystream coherence against a twin that reaches the same position along an independent route; cipher-input-to-block-index functionality on the seam trace. distinct = distinct (type, block size, cipher, policy, op/type/offset-class sequence); non-trivial = >= 1 seek followed by data",
         required_probes: &["seek_backward", "seek_after_partial_block", "offset_gt_2_32", "pos_not_representable", "pos_band", "route_sequential", "route_core", "route_other_type", "i32_type", "usize_type", "belt"],
         r#gen,
